@@ -27,20 +27,22 @@ pub fn run_c01(ctx: &Ctx) {
     // 13- and 16-word phrases whose trailing bits happen to look like a checksum, found by the reference
     for n in [13usize, 16] { let first: Vec<usize> = (0..n - 1).map(|j| (mix(ctx.seed, (n * 64 + j) as u64) % 2048) as usize).collect(); for last in 0..2048usize { let mut idx = first.clone(); idx.push(last); cases.push((format!("words={n},all-final-words"), bip39::indices_to_phrase(&idx))); } }
     let base = bip39::entropy_to_phrase(&[0x42; 16]);
-    for (n, t) in [("tabs", base.replace(' ', "\t")), ("newlines", base.replace(' ', "\n")), ("double", base.replace(' ', "  ")), ("padded", format!("  {base} \n")), ("nbsp", base.replace(' ', "\u{a0}")), ("upper", base.to_uppercase()), ("comma", base.replace(' ', ",")), ("trailing-junk", format!("{base} zzz")), ("unknown-word", base.replacen("donate", "donatee", 1))] { cases.push((format!("layout:{n}"), t)); }
+    for (n, t) in [("tabs", base.replace(' ', "\t")), ("newlines", base.replace(' ', "\n")), ("double", base.replace(' ', "  ")), ("padded", format!("  {base} \n")), ("nbsp", base.replace(' ', "\u{a0}")), ("upper", base.to_uppercase()), ("comma", base.replace(' ', ",")), ("trailing-junk", format!("{base} zzz")), ("unknown-word", base.replacen("donate", "donatee", 1)),
+        // the value as env files and shells leave it: wrapped in quotes, an assignment in front, a trailing comma
+        ("wrapped-double-quotes", format!("\"{base}\"")), ("wrapped-single-quotes", format!("'{base}'")), ("wrapped-back-ticks", format!("`{base}`")), ("assignment-prefix", format!("MNEMONIC={base}")), ("trailing-comma", format!("{base},")), ("unmatched-quote", format!("\"{base}"))] { cases.push((format!("layout:{n}"), t)); }
     ctx.sweep("cli-mnemonic", "`address --mnemonic`: 6 phrases for every word count 0..=40 (valid checksums for the valid counts on even rounds), all 2048 final words on 13- and 16-word phrases, layouts; the printed address must be the reference account or the phrase must be refused", cases.len() as u64, |i| {
         let (shape, text) = &cases[i as usize]; let (class, sh) = crate::phrase::classify(text);
         let want = class.map(|canon| address_text(&curve, &key_of(&curve, &canon, "", &default_path(0))));
-        verdict(ctx, "C01", "cli-mnemonic", i, &format!("{shape},{sh}"), &Cmd::new(&["address", "--mnemonic", text]), want);
+        verdict(ctx, "C01", "cli-mnemonic", i, &format!("{shape},{sh}"), &(if i % 2 == 0 { Cmd::new(&["address", "--mnemonic", text]) } else { Cmd::new(&["address"]).env("MNEMONIC", text) }), want);
     });
 }
 pub fn run_c14(ctx: &Ctx) {
     let curve = Curve::new();
-    let roots = ["m/", "m", "", "M/", "/", "0/", "\u{ff4d}/", "\u{ff4d}\u{ff0f}"]; let toks = ["\u{b2}", "\u{2082}", "\u{2460}", "\u{ff14}\u{ff14}'", "4\u{b2}", "0\u{ff07}", "\u{663}", "0", "1", "44'", "2147483647", "2147483647'", "2147483648", "2147483648'", "4294967295", "4294967296'", "18446744073709551616", "", "-1", "1.5", "x", "0''", "'", "0x10", "+1", "01", "0h"];
+    let roots = ["m/", "m", "", "M/", "/", "0/", "\u{ff4d}/", "\u{ff4d}\u{ff0f}"]; let toks = ["\u{b2}", "\u{2082}", "\u{2460}", "\u{ff14}\u{ff14}'", "4\u{b2}", "0\u{ff07}", "\u{663}", "0", "1", "44'", "2147483647", "2147483647'", "2147483648", "2147483648'", "4294967295", "4294967296'", "18446744073709551616", "", "-1", "1.5", "x", "0''", "'", "0x10", "+1", "01", "0h", "-0", "-0'", "-00", "0.0"];
     let mut texts: Vec<String> = Vec::new();
     for r in roots { texts.push(r.to_string()); for a in toks { texts.push(format!("{r}{a}")); for b in ["0", "2147483648", "1'", ""] { texts.push(format!("{r}{a}/{b}")); } } }
     // deep lines: depth 6..=12, 17, 33, 65 with a valid or a defective token at the last and at the middle position
-    for d in (6..=12usize).chain([17, 33, 65]) { for p in [d / 2, d - 1] { for sub in ["7", "7'", "2147483648", "", "x", "-1", "1.5"] {
+    for d in (6..=12usize).chain([17, 33, 65]) { for p in [d / 2, d - 1] { for sub in ["7", "7'", "2147483648", "", "x", "-1", "1.5", "-0"] {
         let comps: Vec<String> = (0..d).map(|j| if j == p { sub.to_string() } else { format!("{}{}", j + 1, if j % 2 == 1 { "'" } else { "" }) }).collect(); texts.push(format!("m/{}", comps.join("/"))); } } }
     ctx.sweep("cli-hd-path", "`address --hd-path`: deep lines (depth 6..12, 17, 33, 65, one valid or defective token substituted in the middle or at the end) and 8 root spellings x 27 tokens (incl. superscript, subscript, circled, full-width and Arabic-Indic digits) x 5 continuations; printed address = reference CKD account, or refused", texts.len() as u64, |i| {
         let t = &texts[i as usize]; let class = classify_path(t);
